@@ -18,8 +18,9 @@ EMBEDS it (`Emb mc base bytes mem0`: base and length words of the module context
   whose bounds check was ELIDED by the known-safe-bound cache — lies inside `[base, base + size)`, except the loads of
   the two module-context words; stores are always inside.
 * `frontmem_conservative`: on functions without memory instructions `lowerMem` is `FrontendSL.lowerSL`.
-* `frontmem_dce_validated`, `frontmem_then_passes_refines`: a verified CHECKER of the dead-code elimination's result
-  (translation validation; the harness runs it on the real `RunPasses()` output), composed with the refinement.
+* `frontmem_opt_validated` (and `frontmem_dce_validated`), `frontmem_then_passes_refines`: a verified CHECKER of the
+  passes' result (no-op shifts → aliases, alias resolution, dead code; translation validation: the harness runs it on
+  the real `RunPasses()` output), composed with the refinement.
 * `frontmem_wellFormed`: `lowerMem f` is strict SSA in one block (`WellFormedM`).
 * `frontmem_elision_is_model`: the static cache is `Wz.Model.SafeBounds` under an abstraction (same elisions).
 * `frontmem_elision_justified`: whenever `memOpSetup` emits NO check, the bound it found in its cache covers the
@@ -31,6 +32,7 @@ import Wz.Proofs.C01_FrontMem_Cons
 import Wz.Proofs.C01_FrontMem_Elide
 import Wz.Proofs.C01_FrontMem_WF
 import Wz.Proofs.C01_FrontMem_Dce
+import Wz.Proofs.C01_FrontMem_Opt
 
 namespace Wz.C01
 open Wz.Spec Wz.Model.SsaPass Wz.Model.FrontendSL Wz.Model.FrontendMem Wz.Proofs.FrontMem
@@ -158,19 +160,28 @@ theorem frontmem_dce_validated (w : World) (g g' : MFunc) (hp : g'.params = g.pa
     (runM w g' args mem0).1 = (runM w g args mem0).1 ∧ (runM w g' args mem0).2.Sublist (runM w g args mem0).2 :=
   dce_validated w g g' hp hok args mem0
 
-/-- **Front end, then the passes, as far as they are validated** (instead of the composition with
-`ssa_passes_sound`, which is not available for these functions — see docs/C01_frontmem.md): every function `g'` that
-the verified checker accepts as a dead-code elimination of `lowerMem f` refines the reference semantics and stays
-inside the memory.  The harness runs the checker on the REAL output of the front end before / after the REAL
-`RunPasses()` (accepted on 97 % of the sampled functions; the others had operands renamed by alias resolution after
-`passNopInstElimination`, which this checker does not cover — for those only the sampled semantic comparison remains). -/
+/-- **The validator of the passes' result is sound**: if `optValid g g'` (same, duplicate-free block parameters; every
+definition fresh; `g'` is `g` with (a) shifts `Ishl/Ushr/Sshr x, c` by an `Iconst` with `c mod 2^64 mod width = 0` on an
+operand of the shift's declared type deleted and ALIASED to their resolved operand — `passNopInstElimination` —,
+(b) instructions of side-effect class `none` deleted whose results no kept instruction uses —
+`passDeadCodeEliminationOpt` —, (c) the operands of the kept instructions resolved through the aliases), the two
+one-block functions have the same outcome — result values or trap code, final memory, call trace — on every memory
+and all arguments, and the accesses of `g'` are among those of `g`. -/
+theorem frontmem_opt_validated (w : World) (g g' : MFunc) (hv : optValid g g' = true) (args : List Nat) (mem0 : Mem) :
+    (runM w g' args mem0).1 = (runM w g args mem0).1 ∧ (runM w g' args mem0).2.Sublist (runM w g args mem0).2 :=
+  opt_validated w g g' hv args mem0
+
+/-- **Front end, then the passes** (in validated form, instead of the composition with `ssa_passes_sound`, which is
+not available for these functions — see docs/C01_frontmem.md): every `g'` that the verified checker accepts as the
+passes' result on `lowerMem f` refines the reference semantics and stays inside the memory.  The harness runs the
+checker on the REAL output of the front end before / after the REAL `RunPasses()`: accepted on every sampled function. -/
 theorem frontmem_then_passes_refines (f : FnM) (hwt : wellTypedM f = true) (args : List Nat)
     (hargs : ArgsOK f.sig args) (w : World) (ec mc base : Nat) (bytes : ByteArray) (mem0 : Mem)
     (hemb : Emb mc base bytes mem0) (n : Nat) (hn : f.body.length + 3 ≤ n)
-    (g' : MFunc) (hp : g'.params = (lowerMem f).params) (hok : dceOK [] (lowerMem f).instrs g'.instrs = true) :
+    (g' : MFunc) (hv : optValid (lowerMem f) g' = true) :
     RefinesM mc base (runSpecM f args bytes n) (runM w g' (ec :: mc :: args) mem0).1 ∧
     Confined mc base bytes.size (runM w g' (ec :: mc :: args) mem0).2 := by
-  obtain ⟨h1, h2⟩ := dce_validated w (lowerMem f) g' hp hok (ec :: mc :: args) mem0
+  obtain ⟨h1, h2⟩ := opt_validated w (lowerMem f) g' hv (ec :: mc :: args) mem0
   rw [h1]
   exact ⟨frontmem_refines f hwt args hargs w ec mc base bytes mem0 hemb n hn,
     fun a ha => frontmem_confined f hwt args hargs w ec mc base bytes mem0 hemb a (h2.subset ha)⟩
@@ -287,7 +298,31 @@ example : wellTypedM frontMemDeadLoad = true ∧
       [.base (.iconst 3 .i64 4), .base (.un .uextend 4 .i64 2), .extload .uload32 5 .i64 1 16,
        .base (.bin .iadd 6 .i64 4 3), .base (.icmp 7 .i64 .ult 5 6), .base (.exitIf 0 7 4), .base (.ret [2])] = true ∧
     -- deleting the check is NOT accepted
-    dceOK [] (lowerMem frontMemDeadLoad).instrs [.base (.ret [2])] = false := by decide
+    dceOK [] (lowerMem frontMemDeadLoad).instrs [.base (.ret [2])] = false ∧
+    optValid (lowerMem frontMemDeadLoad) ⟨(lowerMem frontMemDeadLoad).params, [.base (.ret [2])]⟩ = false ∧
+    optValid (lowerMem frontMemDeadLoad) ⟨(lowerMem frontMemDeadLoad).params,
+      [.base (.iconst 3 .i64 4), .base (.un .uextend 4 .i64 2), .extload .uload32 5 .i64 1 16,
+       .base (.bin .iadd 6 .i64 4 3), .base (.icmp 7 .i64 .ult 5 6), .base (.exitIf 0 7 4), .base (.ret [2])]⟩ = true := by
+  decide
+
+/-- a shift by 32 of an i32 (a no-op) feeding an address: the real passes alias `v4 ↦ v2`, delete the shift and its
+constant, and resolve the operand of `UExtend`; the checker accepts that, and rejects the alias for a shift by 31 -/
+def frontMemNopShift : FnM :=
+  { params := [.i32], results := [.i32]
+    locals := []
+    body := [.base (.localGet 0), .base (.const .i32 32), .base (.bin .i32 .shl), .load .i32Load8U 0] }
+
+example : wellTypedM frontMemNopShift = true ∧
+    formatM frontMemNopShift =
+      ["blk0: (exec_ctx:i64, module_ctx:i64, v2:i32)", "v3:i32 = Iconst_32 0x20", "v4:i32 = Ishl v2, v3",
+       "v5:i64 = Iconst_64 0x1", "v6:i64 = UExtend v4, 32->64", "v7:i64 = Uload32 module_ctx, 0x10",
+       "v8:i64 = Iadd v6, v5", "v9:i32 = Icmp lt_u, v7, v8", "ExitIfTrue v9, exec_ctx, memory_out_of_bounds",
+       "v10:i64 = Load module_ctx, 0x8", "v11:i64 = Iadd v10, v6", "v12:i32 = Uload8 v11, 0x0", "Jump blk_ret, v12"] ∧
+    optValid (lowerMem frontMemNopShift) ⟨(lowerMem frontMemNopShift).params,
+      [.base (.iconst 5 .i64 1), .base (.un .uextend 6 .i64 2), .extload .uload32 7 .i64 1 16,
+       .base (.bin .iadd 8 .i64 6 5), .base (.icmp 9 .i64 .ult 7 8), .base (.exitIf 0 9 4),
+       .base (.load 10 .i64 1 8), .base (.bin .iadd 11 .i64 10 6), .extload .uload8 12 .i32 11 0, .base (.ret [12])]⟩ = true := by
+  decide
 
 example : WellFormedM (lowerMem frontMemExample) := frontmem_wellFormed _ (by decide)
 
